@@ -2153,7 +2153,13 @@ func (cs Conditions) inlineTagFilter(tags map[string]TagDetails) ConditionsSet {
 		tagConditionsSet := td.Conditions.InlineTagFilters(tags)
 		//TODO: rename subqueries in tagConditionsSet to not collide with the normal query
 		if c.Accept&uncertain == TagConditionAcceptUncertainFailing {
-			tagConditionsSet = tagConditionsSet.invert()
+			if len(tagConditionsSet) == 0 {
+				// the tag can't match any stream, so every stream fails it
+				// (an empty set means "impossible", inverting it would keep it empty)
+				tagConditionsSet = ConditionsSet{Conditions{}}
+			} else {
+				tagConditionsSet = tagConditionsSet.invert()
+			}
 		}
 		origLen := len(csNew)
 		for range tagConditionsSet {
